@@ -10,6 +10,8 @@ CONSTANTS
   Weak_RotateDropsBuf = FALSE
   Weak_DecoderAcceptsBadCRC = FALSE
   Weak_PruneNewest = FALSE
+  Weak_IndexWidth3Only = FALSE
+  WidthLimit = 1000
 INIT Init
 NEXT Next
 CHECK_DEADLOCK FALSE
